@@ -122,6 +122,8 @@ def pool_validation(tier, extra_cov):
                     samples.append({'trace_id': tid, 'cls': cls[tid], 'verdict': v, 'detail': d})
         if can_ok and not drift and not oc.violations:
             raise MachineryError('binding canary accepted by Trace_PoolD: one request more in the queue than there is')
+        from .. import httpd
+        httpd.post_hook(extra_cov)(oc, traces, summaries)
         extra_cov['design_model_validation'] = {
             'module': 'Trace_PoolD (EXTENDS RelayPool)', 'traces': len(proj), 'accepted': sum(1 for v in ver.values() if v[0] == 'OK'),
             'drift': drift, 'tlc_states': r['states'], 'wall_s': r['wall_s'], 'canary_rejected': bool(can) and not can_ok, 'drift_samples': samples}
